@@ -13,6 +13,7 @@ package server
 // completed file operations = what a process kill at that instant leaves).
 
 import (
+	"os"
 	"bytes"
 	"fmt"
 	"path/filepath"
@@ -38,6 +39,9 @@ type c08Params struct {
 	// Shrink: one connection issues AOFSHRINK; the rewrite re-encodes objects, so
 	// "the log holds the write" is decided on (key, id) instead of the exact bytes
 	Shrink bool `json:"shrink,omitempty"`
+	// Full: the log file cannot grow any further (disk full): a write that cannot reach the
+	// file must not be acknowledged (the server may stop instead)
+	Full bool `json:"full,omitempty"`
 	// Prop: property the scenario is run for (default C08; C03 reuses two scenarios)
 	Prop string `json:"prop,omitempty"`
 }
@@ -95,6 +99,11 @@ func c08Run(job *Job, p c08Params, prefix []int) (out schedOut) {
 			clis[i] = x.Dial(in.Addr)
 		}
 		vsched.Quiesce() // all connections accepted, handlers blocked in Read
+		if p.Full {
+			if fi, err := os.Stat(aofPath); err == nil {
+				vos.SizeLimit[aofPath] = fi.Size() + 10 // room for the first bytes of the next record only
+			}
+		}
 		for i := range clis {
 			i := i
 			var pend []byte
@@ -153,6 +162,9 @@ func c08Run(job *Job, p c08Params, prefix []int) (out schedOut) {
 		vsched.Prefix = prefix
 		vsched.Exploring = true
 		done := vsched.WaitUntilOr(func() bool {
+			if p.Full && len(vsched.Crashes) > 0 {
+				return true // the server stopped on the write error: nothing more is acknowledged
+			}
 			for i := range clis {
 				if acked[i] < len(p.Conns[i].Cmds) {
 					return false
@@ -166,6 +178,16 @@ func c08Run(job *Job, p c08Params, prefix []int) (out schedOut) {
 		out.Diverged = vsched.Diverged
 		if !done {
 			out.Err = "replies missing: " + vsched.Dump()
+			return
+		}
+		if p.Full {
+			// the only question here: was anything acknowledged that the file does not hold
+			out.Obs = fmt.Sprintf("full-disk acked=%v crashed=%v", acked, len(vsched.Crashes) > 0)
+			if len(early) > 0 {
+				out.VSig = p.prop() + "/ack-before-log:log-cannot-grow"
+				out.VDetail = strings.Join(early, "; ")
+			}
+			vsched.Crashes = nil
 			return
 		}
 		// observation: order in which the commands reached the log
@@ -207,7 +229,7 @@ func c08Run(job *Job, p c08Params, prefix []int) (out schedOut) {
 	if x.Err != "" {
 		out.Err = x.Err
 	}
-	if len(x.Crashes) > 0 {
+	if len(x.Crashes) > 0 && !p.Full {
 		out.Err = fmt.Sprintf("server thread panicked: %s: %s\n%s", x.Crashes[0].Thread, x.Crashes[0].Value, x.Crashes[0].Stack)
 	}
 	return out
@@ -231,6 +253,8 @@ func c08Scenarios(tier string) (scs []c08Params, bound int) {
 	)
 	// a write acknowledged while AOFSHRINK is rewriting the log
 	scs = append(scs, c08Params{Pre: [][]string{set("p1"), set("p2"), {"SET", "j", "x", "POINT", "2", "2"}}, Conns: []c08Conn{{Cmds: [][]string{{"AOFSHRINK"}}}, {Cmds: [][]string{set("b")}}}, Shrink: true})
+	// the log cannot grow (disk full): the write must not be acknowledged
+	scs = append(scs, c08Params{Pre: [][]string{set("p1")}, Conns: []c08Conn{{Cmds: [][]string{set("a")}}, {Cmds: [][]string{get}}}, Full: true})
 	// a write followed, in the same segment, by a read whose reply is larger than 4 MiB
 	scs = append(scs, c08Params{Pre: [][]string{{"@BIG", "kb", "big", "4300000"}}, Conns: []c08Conn{{Cmds: [][]string{set("a"), {"GET", "kb", "big"}}}, {Cmds: [][]string{get}}}})
 	if tier == "thorough" {
